@@ -33,6 +33,7 @@ struct GenOpts {
   bool globalDomain = false;  // C06 domain: wide rows, a movable row-high cell, bounded bin count
   bool anchorNear = false;    // keep the area within 50 row heights of the origin
   int anchorPct = 0;          // probability (%) of giving every net component a fixed pin
+  bool boundMinHeight = false;  // resource bound only: no positive cell height below half a row
   long long maxCoord = 1LL << 22;
 };
 
@@ -438,6 +439,10 @@ inline CircuitSpec genCircuit(Tape &t, const GenOpts &o) {
       c.kind = "cell:single-row";
       s.cells.push_back(c);
     }
+    long long minH = std::max<long long>(1, rh / 2);
+    for (auto &c : s.cells)
+      if (c.h > 0 && c.h < minH) c.h = (int)minH;
+  } else if (o.boundMinHeight) {
     long long minH = std::max<long long>(1, rh / 2);
     for (auto &c : s.cells)
       if (c.h > 0 && c.h < minH) c.h = (int)minH;
